@@ -991,6 +991,21 @@ impl fmt::Debug for WeakDispatch {
     }
 }
 
+#[cfg(all(tracing_verif, feature = "std"))]
+impl Dispatch {
+    pub(crate) fn verif_unregistered(collector: &'static (dyn Collect + Send + Sync)) -> Self {
+        Self {
+            collector: Kind::Global(collector),
+        }
+    }
+
+    pub(crate) fn verif_unregistered_arc(collector: Arc<dyn Collect + Send + Sync>) -> Self {
+        Self {
+            collector: Kind::Scoped(collector),
+        }
+    }
+}
+
 #[cfg(feature = "std")]
 impl Registrar {
     pub(crate) fn upgrade(&self) -> Option<Dispatch> {
